@@ -104,6 +104,20 @@ def events_for_case(o, cid, g, g2, ids, relations=True):
     o3 = sd.set_config_event(ev, s, dict(o, ep=ep2, en=en2), g, k=cid)
     if o3 is not None:
         eer_event(ev, s, o3, 1, g)
+        # ... a copy of it gets yet another configuration and other easy counts, is queried, and then
+        # the original is queried again
+        s9 = sd.copy_event(ev, s, o3, g, h=1, h2=9, how=["copy", "deepcopy", "pickle"][cid % 3])
+        if s9 is not None:
+            o9 = sd.set_config_event(ev, s9, o3, g, h=9, k=cid + 1)
+            if o9 is not None:
+                e = ev("SetEasy", h=9, ep=o3["ep"] + 3, en=o3["en"] + 1, post=dict(sd.EMPTY_POST))
+                try:
+                    s9.nb_easy_pos, s9.nb_easy_neg = o3["ep"] + 3, o3["en"] + 1
+                    e["post"] = sd.alpha_obj(s9, sd.inv_map(g))
+                    eer_event(ev, s9, dict(o9, ep=o3["ep"] + 3, en=o3["en"] + 1), 9, g)
+                except Exception as ex:  # noqa
+                    e["exc"] = sd.exc_str(ex)
+            eer_event(ev, s, o3, 1, g)
     return evs
 
 
